@@ -18,6 +18,9 @@ mod tree_cache;
 mod utils;
 pub mod write_atom;
 
+#[cfg(feature = "verif-hooks")]
+pub mod verif;
+
 #[cfg(test)]
 mod test;
 #[cfg(test)]
